@@ -6,7 +6,9 @@ model).  Hidden-state fingerprints (shared tables, memo flags on module-level ex
 Inputs must stay structurally equal.  Finite set of parser-table cache configurations, each in a fresh process."""
 import os, sys, time, json, hashlib, itertools, subprocess, tempfile, shutil, pickle, struct
 from .. import core
+from ..asmcorpus import CORPUS_INTEL, CORPUS_ATT
 
+CORPUS_ALL = CORPUS_INTEL + CORPUS_ATT
 NEEDS_X86 = True
 
 
@@ -273,6 +275,8 @@ def shard(s, ns, tier, seed):
                 part.n += 1
                 if res.get(p) == base[p]:
                     part.keys.add(core.h64((hist, p)))
+                    if len(part.samples) < 2 and len(hist) > 1:
+                        part.samples.append({'history': [CALLS[i][0] for i in hist], 'probe': CALLS[p][0], 'result': res[p][:120], 'fingerprint': fp})
                 else:
                     part.fails.append((hist, p, base[p][:150], (res.get(p) or '')[:150]))
             # a call repeated inside the history must repeat its own result (same explicit inputs), unless it is a documented state change
@@ -571,7 +575,6 @@ def run(tier, seed):
     cache_experiment(part)
     part.counters['histories'] = len(fps) - 1
     part.counters['probes_per_history'] = len([1 for n, f in CALLS if n not in NOT_PROBES])
-    part.samples = [{'history': ['B.eval eax (absent)'], 'probe': 'A.eval eax (bound)'}, {'history': [CALLS[4][0]], 'probe': CALLS[5][0]}]
     depth = 2 if tier == 'quick' else 3
     rule = ('history exploration: alphabet of %d API calls (dis, asm, asm_att incl. raising ones, lift, expr_simp / eval_expr on expressions built on '
             'the module-level register singletons and shared between calls, eval on machines with bound/absent registers and memory, emulation, '
@@ -579,8 +582,8 @@ def run(tier, seed):
             'in its own grand-child and must equal its pristine result; a call repeated within a history must repeat its result. states = distinct '
             'hidden-state fingerprints (instruction/register tables, memo flags on module-level expressions, sys.path), new fingerprints per '
             'depth = %s. input immutability: %d expression trees x 6 APIs, instruction objects, machine states. cache configurations: %s, each in a '
-            'fresh process with its own TMPDIR, compared on %d corpus lines' % (
-                len(CALLS), depth, len([1 for n, f in CALLS if n not in NOT_PROBES]), new_at, pi.n, cache_configs(), 0))
+            'fresh process with its own TMPDIR, compared on %d corpus lines and 3 invalid lines' % (
+                len(CALLS), depth, len([1 for n, f in CALLS if n not in NOT_PROBES]), new_at, pi.n, cache_configs(), len(CORPUS_ALL)))
     return core.finish('C12', tier, seed, t0, part, rule, level='model_checking', exhaustive=True,
                        extra={'new_fingerprints_per_depth': new_at, 'fingerprint_set_closed': new_at.get(depth, 0) == 0, 'depth': depth},
                        assumptions=['fork gives each history a pristine copy of the library image', 'the fingerprint covers x86mndb, x86_afs, flags on ia32_sem expressions and sys.path only'])
